@@ -84,6 +84,8 @@ structure View where
   txNetwork : Option Nat
   /-- Plutus scripts in the witness set (`presence_of_plutus_scripts`) -/
   plutusInWitnesses : Bool
+  /-- the witness set has redeemers (so some Plutus script runs, from the witness set or from a reference input) -/
+  redeemersPresent : Bool
   maxCollateralInputs : Nat
   collateralPercentage : Nat
   /-- Babbage / Conway: `lovelace_diff_or_fail(collateral inputs, collateral return)`; `none` = it failed (non-lovelace balance) -/
@@ -95,31 +97,37 @@ structure View where
   /-- verdicts of the rules whose predicate is not stated in this model -/
   external : Rule → Bool
 
-/-! ## The stated rules -/
+/-! ## The stated rules (each `if x < y { Err }` of the code is written as the condition for passing, `y ≤ x`) -/
 
-def insNotEmpty (v : View) : Bool := v.nInputs != 0
+def eraHasCollateral : Era → Bool
+  | .alonzo | .babbage | .conway => true
+  | _ => false
+def eraHasRefInputs : Era → Bool
+  | .babbage | .conway => true
+  | _ => false
+
+def insNotEmpty (v : View) : Bool := decide (v.nInputs ≠ 0)
 
 /-- `check_ins_in_utxos` / `check_ins_and_collateral_in_utxos` / `check_all_ins_in_utxos` -/
 def insInUtxo (era : Era) (v : View) : Bool :=
   v.inputsIn.all id &&
-  (match era with
-   | .alonzo | .babbage | .conway => (v.collateral.getD []).all (·.inUtxo)
-   | _ => true) &&
-  (match era with
-   | .babbage | .conway => v.refInputsIn.all id
-   | _ => true)
+  (!eraHasCollateral era || (v.collateral.getD []).all (fun c => c.inUtxo)) &&
+  (!eraHasRefInputs era || v.refInputsIn.all id)
+
+def lowerOk (v : View) : Bool :=
+  match v.validityStart with
+  | some s => decide (s ≤ v.slot)
+  | none => true
+def upperOk (v : View) : Bool :=
+  match v.ttl with
+  | some t => decide (v.slot ≤ t)
+  | none => true
 
 /-- Shelley-MA `check_ttl` (the TTL is mandatory); later eras `check_lower_bound` + `check_upper_bound` -/
 def validity (era : Era) (v : View) : Bool :=
-  match era with
-  | .shelleyMA => match v.ttl with
-    | some t => !(t < v.slot)
-    | none => false
-  | _ =>
-    (match v.validityStart with | some s => !(v.slot < s) | none => true) &&
-    (match v.ttl with | some t => !(t < v.slot) | none => true)
+  if era = .shelleyMA then v.ttl.isSome && upperOk v else lowerOk v && upperOk v
 
-def txSize (v : View) : Bool := !(v.size > v.maxSize)
+def txSize (v : View) : Bool := decide (v.size ≤ v.maxSize)
 
 /-- `compute_min_lovelace` of each era -/
 def minRequired (era : Era) (v : View) (o : OutView) : Nat :=
@@ -128,18 +136,34 @@ def minRequired (era : Era) (v : View) (o : OutView) : Nat :=
   | .alonzo => v.coinsParam * (o.words + (if o.datumHash then 37 else 27))
   | _ => v.coinsParam * (o.words + 160)
 
-def minLovelace (era : Era) (v : View) : Bool := v.outputs.all (fun o => !(o.lovelace < minRequired era v o))
+def minLovelace (era : Era) (v : View) : Bool := v.outputs.all (fun o => decide (minRequired era v o ≤ o.lovelace))
 
-def valSize (v : View) : Bool := v.outputs.all (fun o => !(o.words > v.maxValueSize))
+def valSize (v : View) : Bool := v.outputs.all (fun o => decide (o.words ≤ v.maxValueSize))
+
+def txNetworkOk (v : View) : Bool :=
+  match v.txNetwork with
+  | some n => decide (n = v.envNetwork)
+  | none => true
 
 /-- every output address is a Shelley address of the environment's network; the body's network id, if any, too (Alonzo+) -/
 def networkId (era : Era) (v : View) : Bool :=
-  v.outputs.all (fun o => o.network == some v.envNetwork) &&
-  (match era with
-   | .shelleyMA => true
-   | _ => match v.txNetwork with | some n => n == v.envNetwork | none => true)
+  v.outputs.all (fun o => decide (o.network = some v.envNetwork)) && (decide (era = .shelleyMA) || txNetworkOk v)
 
-def minFee (v : View) : Bool := !(v.fee < v.minfeeB + v.minfeeA * v.size)
+def minFee (v : View) : Bool := decide (v.minfeeB + v.minfeeA * v.size ≤ v.fee)
+
+/-- Alonzo: every inspected collateral input covers the percentage of the fee by itself and carries no assets -/
+def alonzoAmounts (v : View) (cs : List CollView) : Bool :=
+  cs.all (fun c => !c.lookedAt || (decide (v.fee * v.collateralPercentage ≤ c.coin * 100) && !c.hasAssets))
+
+/-- Babbage / Conway: the lovelace-only balance covers the percentage of the fee and equals the annotation, if any -/
+def balanceAmounts (v : View) : Bool :=
+  match v.paidCollateral with
+  | none => false
+  | some paid =>
+    decide (v.fee * v.collateralPercentage ≤ paid * 100) &&
+    (match v.totalCollateral with
+     | some t => decide (paid = t)
+     | none => true)
 
 /-- `check_collaterals`: present, `0 < count ≤ max`, every one in the UTxO and not script-locked (nor undecodable),
     then the amount rules of the era -/
@@ -147,25 +171,14 @@ def collateralOk (era : Era) (v : View) : Bool :=
   match v.collateral with
   | none => false
   | some cs =>
-    !cs.isEmpty && !(cs.length > v.maxCollateralInputs) &&
-    cs.all (fun c => c.inUtxo && (!c.lookedAt || c.script == some false)) &&
-    (match era with
-     | .alonzo =>
-       -- per collateral input: `n * 100 >= fee * percentage` and no assets
-       cs.all (fun c => !c.lookedAt || (!(c.coin * 100 < v.fee * v.collateralPercentage) && !c.hasAssets))
-     | _ =>
-       match v.paidCollateral with
-       | none => false
-       | some paid =>
-         !(paid * 100 < v.fee * v.collateralPercentage) &&
-         (match v.totalCollateral with | some t => paid == t | none => true))
+    !cs.isEmpty && decide (cs.length ≤ v.maxCollateralInputs) &&
+    cs.all (fun c => c.inUtxo && (!c.lookedAt || decide (c.script = some false))) &&
+    (if era = .alonzo then alonzoAmounts v cs else balanceAmounts v)
 
 /-- `check_fee` (Alonzo+): minimum fee, and the collateral rules when the witness set has Plutus scripts;
     Shelley-MA `check_fees`: the minimum fee -/
 def fee (era : Era) (v : View) : Bool :=
-  match era with
-  | .shelleyMA => minFee v
-  | _ => minFee v && (!v.plutusInWitnesses || collateralOk era v)
+  if era = .shelleyMA then minFee v else minFee v && (!v.plutusInWitnesses || collateralOk era v)
 
 /-- `check_auxiliary_data` / `check_metadata`: hash and data both present and matching, or both absent -/
 def auxData (v : View) : Bool :=
